@@ -384,47 +384,46 @@ pub fn gen_stmt(r: &mut Rng, known: &Known) -> Stmt {
         };
         // the record-lifecycle clauses (SUPERSEDE / CORRECT / TRANSITION / SET RETENTION): targets are
         // existing records or records this block creates; sometimes the wrong kind, itself, a stale guard
-        if r.chance(1, 7) {
+        if r.chance(1, 6) {
             let of = |k: char, hs: &Vec<(u32, char, u32)>| -> Vec<Ref> {
                 let mut v: Vec<Ref> = known.others.iter().filter(|o| o.0.starts_with(k)).map(|o| Ref::Id(o.0.clone())).collect();
                 v.extend(hs.iter().filter(|h| h.1 == k).map(|h| Ref::H(h.0)));
                 v
             };
             let wrong = |r: &mut Rng| -> Option<Ref> { if known.concepts.is_empty() { None } else { Some(Ref::Id(r.pick(&known.concepts).0.clone())) } };
-            let made: Option<Clause> = match r.below(4) {
+            let other = |r: &mut Rng, v: &Vec<Ref>, t: &Ref| -> Ref {
+                let rest: Vec<Ref> = v.iter().filter(|x| *x != t).cloned().collect();
+                if rest.is_empty() || r.chance(1, 12) { t.clone() } else { r.pick(&rest).clone() }
+            };
+            let (a, e, x) = (of('A', &hs), of('E', &hs), of('X', &hs));
+            let mut menu: Vec<u8> = vec![];
+            if a.len() >= 2 { menu.extend([0, 0, 0]); } else if !a.is_empty() { menu.push(0); }
+            if e.len() >= 2 { menu.extend([1, 1]); } else if !e.is_empty() { menu.push(1); }
+            if !x.is_empty() { menu.extend([2, 2]); }
+            if !known.all.is_empty() { menu.push(3); }
+            let made: Option<Clause> = if menu.is_empty() { None } else { match *r.pick(&menu) {
                 0 => {
-                    let a = of('A', &hs);
-                    if a.is_empty() { None } else {
-                        let t = r.pick(&a).clone();
-                        let by = if r.chance(1, 10) { t.clone() } else if r.chance(1, 10) { wrong(r).unwrap_or_else(|| t.clone()) } else { r.pick(&a).clone() };
-                        let expect = if want_bad { Some(1) } else if r.chance(1, 3) { Some(if r.chance(2, 3) { 0 } else { 3 }) } else { None };
-                        Some(Clause::Su { t, by, expect })
-                    }
+                    let t = r.pick(&a).clone();
+                    let by = if r.chance(1, 12) { wrong(r).unwrap_or_else(|| t.clone()) } else { other(r, &a, &t) };
+                    let expect = if want_bad { Some(1) } else if r.chance(1, 3) { Some(if r.chance(2, 3) { 0 } else { 3 }) } else { None };
+                    Some(Clause::Su { t, by, expect })
                 }
                 1 => {
-                    let e = of('E', &hs);
-                    if e.is_empty() { None } else {
-                        let t = r.pick(&e).clone();
-                        let by = if r.chance(1, 10) { t.clone() } else if r.chance(1, 10) { wrong(r).unwrap_or_else(|| t.clone()) } else { r.pick(&e).clone() };
-                        Some(Clause::Co { t, by })
-                    }
+                    let t = r.pick(&e).clone();
+                    let by = if r.chance(1, 12) { wrong(r).unwrap_or_else(|| t.clone()) } else { other(r, &e, &t) };
+                    Some(Clause::Co { t, by })
                 }
                 2 => {
-                    let x = of('X', &hs);
-                    if x.is_empty() { None } else {
-                        let t = if r.chance(1, 12) { wrong(r).unwrap_or_else(|| r.pick(&x).clone()) } else { r.pick(&x).clone() };
-                        let expect = if want_bad { Some(7) } else if r.chance(1, 3) { Some(if r.chance(1, 2) { 0 } else { 5 }) } else { None };
-                        Some(Clause::Tr { t, to: 5 + r.below(3) as u8, expect })
-                    }
+                    let t = if r.chance(1, 12) { wrong(r).unwrap_or_else(|| r.pick(&x).clone()) } else { r.pick(&x).clone() };
+                    let expect = if want_bad { Some(7) } else if r.chance(1, 3) { Some(if r.chance(1, 2) { 0 } else { 5 }) } else { None };
+                    Some(Clause::Tr { t, to: 5 + r.below(3) as u8, expect })
                 }
                 _ => {
-                    if known.all.is_empty() { None } else {
-                        let pick = r.pick(&known.all).clone();
-                        let expect = if want_bad { Some(9) } else if r.chance(1, 4) { Some(pick.1) } else { None };
-                        Some(Clause::Sr { t: Ref::Id(pick.0.clone()), v: 1 + r.below(3) as u32, expect })
-                    }
+                    let pick = r.pick(&known.all).clone();
+                    let expect = if want_bad { Some(9) } else if r.chance(1, 4) { Some(pick.1) } else { None };
+                    Some(Clause::Sr { t: Ref::Id(pick.0.clone()), v: 1 + r.below(3) as u32, expect })
                 }
-            };
+            } };
             if let Some(c) = made { clauses.push(c); continue; }
         }
         let choice = r.below(100);
